@@ -25,7 +25,9 @@ import (
 
 	"verif/harness/llvmoracle"
 	"verif/harness/mbt"
+	"verif/harness/props/corpus"
 	"verif/harness/props/irwalk"
+	"verif/harness/props/modgen"
 	"verif/harness/props/reg"
 	"verif/harness/props/trcheck"
 	"verif/harness/props/trsrc"
@@ -399,6 +401,21 @@ func Run(tier, replay string) {
 		}
 		for k := 0; k < 3; k++ {
 			inputs = append(inputs, input{name: fmt.Sprintf("big/%d", k), text: bigModule(rng, 12+7*k)})
+		}
+		// clang output (many metadata nodes, attribute groups, types: hash-seeded map orders) and a
+		// sample of the Modules.tla feature matrix
+		for _, in := range corpus.Clang("-O1 -g") {
+			inputs = append(inputs, input{name: "clang/" + in.Name, text: in.Text})
+		}
+		mv := modgen.Generate(rep, "*")
+		step := 9
+		if tier == "thorough" {
+			step = 2
+		}
+		for k := int(mbt.Seed()) % step; k < len(mv); k += step {
+			if mv[k].Repr {
+				inputs = append(inputs, input{name: "modules/" + mv[k].Fam, text: mv[k].Text()})
+			}
 		}
 	}
 
